@@ -231,8 +231,8 @@ class C01(ScheduleEnumerationMixin, EngineCheck):
 
     def strategy(self, tier):
         base = super().strategy(tier)
-        return st.one_of(*([base] * 14), rec_consumer_templates(tier), shared_failure_templates(tier),
-                         shared_between_candidates_templates(tier))
+        return st.one_of(*([base] * 13), rec_consumer_templates(tier), rec_consumer_templates(tier),
+                         shared_failure_templates(tier), shared_between_candidates_templates(tier))
 
     rule = ('case = generated program (all mark kinds, modes, retry settings) x behaviour variant x 1 FIFO + 3 '
             'generated schedules (index tapes and rank schedules); non-trivial = at least two completions were '
@@ -745,6 +745,13 @@ class C05(EngineCheck):
                 case['enumerate_failsets'] = True
             if 'focus_fail' not in case['variant'] and draw(st.booleans()):
                 G.focus_shared_failure(draw, case['program'], case['variant'])
+            for n in case['program']['nodes']:
+                # a configured node fails with listed and unlisted exceptions: the verdict (default / failure / which
+                # error) must follow the policy
+                if (n.get('exceptions') or n.get('use_default')) and draw(st.integers(0, 2)) == 0:
+                    k = draw(st.integers(1, 3))
+                    case['variant']['nodes'].setdefault(n['id'], {})['outcomes'] = [
+                        draw(st.sampled_from(['ErrA', 'ErrA2', 'ErrB', 'ErrC'])) for _ in range(k)]
             return _sanitize(case)
 
         return st.one_of(*([s()] * 12), shared_failure_templates(tier),
@@ -833,6 +840,47 @@ def switch_in_recurrent_templates(draw, tier):
     var = {'x': 0, 'nodes': {'n2': {'labels': labels}, dest: {'rec_n': draw(st.integers(1, maxit))}}}
     scheds = [draw(G.schedules(prog)) for _ in range(3)]
     return {'program': prog, 'variant': var, 'scheds': scheds, 'switch_in_recurrent': cons}
+
+
+@st.composite
+def same_decider_templates(draw, tier):
+    """directed shape: two DIFFERENT switches (unnamed, or named differently) driven by the same decision node, with
+    different case nodes and possibly different label sets, consumed by two nodes or by two parameters of one node.
+    Each consumer must get the case of ITS switch; a label only the other switch declares is an unknown label."""
+    def N(nid, params=(), mode='gated', **kw):
+        d = {'id': nid, 'params': [list(p) for p in params], 'mode': mode}
+        d.update(kw)
+        return d
+    ext = st.sampled_from(['gated', 'gated', 'coro', 'thread', 'inline'])
+    nodes = [N('n0', mode='coro')]
+
+    def add(params, **kw):
+        nid = f'n{len(nodes)}'
+        nodes.append(N(nid, params, mode=draw(ext), **kw))
+        return nid
+
+    dec = add([('k0', ['in', 'n0'])])
+    labels_a = ['L0', 'L1'][:draw(st.integers(1, 2))]
+    labels_b = ['L0', 'L1', 'L2'][:draw(st.integers(1, 3))]
+    cases_a = [[l, add([('k0', ['in', 'n0'])])] for l in labels_a]
+    cases_b = [[l, add([('k0', ['in', 'n0'])])] for l in labels_b]
+    named = draw(st.booleans())
+    ma = ['sw', 'sw_a' if named else None, dec, cases_a]
+    mb = ['sw', 'sw_b' if named else None, dec, cases_b]
+    if draw(st.booleans()):
+        ca = add([('k0', ma)])
+        cb = add([('k0', mb)])
+        params = [('k0', ['in', ca]), ('k1', ['in', cb])]
+        if draw(st.booleans()):
+            params.reverse()
+            params = [(f'k{i}', m) for i, (_, m) in enumerate(params)]
+        out = add(params)
+    else:
+        out = add([('k0', ma), ('k1', mb)] if draw(st.booleans()) else [('k0', mb), ('k1', ma)])
+    prog = {'nodes': nodes, 'output': out}
+    var = {'x': 0, 'nodes': {dec: {'label': draw(st.sampled_from(['L0', 'L0', 'L1', 'L1', 'L2', 'NOPE']))}}}
+    scheds = [draw(G.schedules(prog)) for _ in range(3)]
+    return {'program': prog, 'variant': var, 'scheds': scheds, 'template': 'same-decider'}
 
 
 def oracle_routing_per_iteration(o, case):
@@ -988,7 +1036,7 @@ class C09(EngineCheck):
             return case
 
         return st.one_of(base, base, base, base, base, base, undeclared_label(),
-                         switch_in_recurrent_templates(tier))
+                         switch_in_recurrent_templates(tier), same_decider_templates(tier))
 
     def oracle(self, case, refres, obs):
         v = []
